@@ -16,6 +16,8 @@
 #               seeded shuffles, plus the module-level tries themselves
 # Faults: iterator cancellation at an arbitrary step, add() of a non-string.
 #
+import re
+
 from sim.core import bounded, HarnessError, Violation, canon, geometric, r, stream, weighted_choice
 
 NAME = "C09"
@@ -131,6 +133,19 @@ def canonical_labels(hostname):
                 pass
         out.append(label)
     return tuple(out)
+
+
+ORDINARY_RE = re.compile(r"[^\s,/:@?#]+")
+
+
+def is_ordinary(hostname):
+    return bool(ORDINARY_RE.fullmatch(hostname)) and all(hostname.split("."))
+
+
+def loose_labels(hostname):
+    """Labels of a not-quite-hostname under the most generous reading."""
+    cleaned = re.sub(r"[\s,/:@?#]", "", hostname).lower()
+    return tuple(x for x in cleaned.split(".") if x)
 
 
 def all_hosts(alphabet, max_depth):
@@ -483,13 +498,29 @@ class Run(object):
             yield labels + ("zz",)
 
     def sweep_trie_against(self, trie, hostnames, op):
+        # The repository's lists hold a few entries that are not ordinary
+        # hostnames ('tk.', 'letop10.', 'chl.li,' — trailing dots and commas). The
+        # property does not say how such an entry is read (literally, or with the
+        # dot stripped), so the history is replayed faithfully but nothing that
+        # depends on those entries is judged.
+        ordinary = [h for h in hostnames if is_ordinary(h)]
+        odd = [loose_labels(h) for h in hostnames if not is_ordinary(h)]
+        odd = [o for o in odd if o]
+
+        def related(labels):
+            for o in odd:
+                k = min(len(o), len(labels))
+                if o[len(o) - k :] == labels[len(labels) - k :]:
+                    return True
+            return False
+
         model = Model()
-        for h in hostnames:
+        for h in ordinary:
             model.add(canonical_labels(h))
         n = 0
-        for labels in self.bundled_queries(hostnames):
+        for labels in self.bundled_queries(ordinary):
             n += 1
-            if is_ip_like(labels) or not all(labels):
+            if is_ip_like(labels) or not all(labels) or related(labels):
                 continue
             url = render_url(".".join(labels), URL_FORMS[n % len(URL_FORMS)])
             got = trie.match(url)
@@ -497,13 +528,17 @@ class Run(object):
             self.stats.checks += 1
             if got is not expected:
                 self.fail("match", op, got, expected, {"url": r(url), "host": list(labels)})
-        minimal = sorted(".".join(a) for a in model.minimal())
+        minimal = sorted(".".join(a) for a in model.minimal() if not related(a))
         self.stats.checks += 2
-        if len(trie) != len(minimal):
-            self.fail("len", op, len(trie), len(minimal), {"added": len(hostnames)})
-        got = sorted(bounded(trie, len(hostnames)))
+        if not odd:
+            n_min = len(model.minimal())
+            if len(trie) != n_min:
+                self.fail("len", op, len(trie), n_min, {"added": len(hostnames)})
+        else:
+            self.stats.probe("bundled_entries_not_ordinary_hostnames", len(odd))
+        got = sorted(g for g in bounded(trie, len(hostnames)) if isinstance(g, str) and is_ordinary(g) and not related(canonical_labels(g)))
         if got != minimal:
-            diff = sorted(set(got) ^ set(minimal))[:10]
+            diff = sorted(set(got) ^ set(minimal))[:10] or ["duplicates"]
             self.fail("iteration", op, diff, [], {"added": len(hostnames)})
         self.stats.state("bundled|%d|%s" % (len(hostnames), canon(sorted(hostnames)[:3])))
 
